@@ -880,7 +880,7 @@ def main(run: core.Run) -> None:
             "evConcat:sym", "evReshape:T", "evExpand:T", "evAbs:F", "materialize:some", "flatten:some", "flatten:N",
             "ruleScatterDyn:T", "ruleScatterDyn:F", "expandRemovable:rank1", "expandRemovable:rank2",
             "ruleScatterStatic:T", "ruleScatterStatic:F", "ruleCollapseSlice1:T", "ruleCollapseSlice1:F", "ruleCollapseSlice2:T",
-            "ruleCollapseSlice2:F", "ruleSqueezeReshape:T", "ruleSqueezeReshape:F", "getShapeValue:N", "getShapeValue:some"]
+            "ruleCollapseSlice2:F", "ruleSqueezeReshape:T", "ruleSqueezeReshape:F", "getShapeValue:N", "getShapeValue:some", "spec_gather:N", "spec_gather:some"]
     missing = [b for b in need if branches.get(b, 0) == 0]
     if missing and not run.violations:
         raise core.Infra(f"generator degenerated: branches never hit: {missing}")
